@@ -184,7 +184,7 @@ var profContent = mux.Profile{Name: "content", Variants: allVariants, LeadUnits:
 var profBoundary = mux.Profile{Name: "boundaries", Variants: allVariants, LeadUnits: [2]int{30, 220}, MaxAudio: 2, Boundary: true, ParamRate: 12, AllowDisk: false, HalfSecond: true}
 var profDurations = mux.Profile{Name: "durations", Variants: allVariants, LeadUnits: [2]int{30, 200}, MaxAudio: 2, Durations: true, ParamRate: 3, HalfSecond: true}
 var profLong = mux.Profile{Name: "long", Variants: allVariants, LeadUnits: [2]int{200, 1500}, MaxAudio: 2, Long: true, ParamRate: 1, AllowDisk: true}
-var profTracks = mux.Profile{Name: "tracks", Variants: allVariants, LeadUnits: [2]int{20, 90}, MaxAudio: 4, ParamRate: 15}
+var profTracks = mux.Profile{Name: "tracks", Variants: allVariants, LeadUnits: [2]int{20, 90}, MaxAudio: 4, ParamRate: 15, AllowDisk: true}
 var profRetention = mux.Profile{Name: "retention", Variants: allVariants, LeadUnits: [2]int{150, 1200}, MaxAudio: 2, Long: true, SmallMax: true, ParamRate: 1, AllowDisk: true}
 
 var propC01 = e1Prop("C01",
